@@ -26,7 +26,26 @@ def run(argv, stdin=b"", passphrase=None, rpc=None):
 
 
 def rep(b, fmt):
-    return c20.rep(b, fmt)
+    """the bytes in the given input format; HEX text is upper-case for some contents (hex digits are case-insensitive, and a
+    command line sees whatever the user's other tool printed) - decided by the content so that runs stay reproducible"""
+    t = c20.rep(b, fmt)
+    if fmt == "hex" and len(b) and (b[0] ^ b[-1] ^ len(b)) % 3 == 0:
+        return t.upper() if (b[0] & 4) else bytes(ch - 32 if (97 <= ch <= 102 and i % 2) else ch for i, ch in enumerate(t))
+    return t
+
+
+def refused(r):
+    """did the command SIGNAL the refusal (error return value -> non-zero exit status of the console script, or SystemExit)?
+    Printing nothing while returning success is not a refusal."""
+    return (r["ret"] is not None) or (r["exit"] not in (None, 0))
+
+
+def judge_invalid(ctx, r, key, detail):
+    """invalid input through the command line: nothing may be printed as a result AND the failure must be signalled"""
+    if r["ok"] and r["out"].strip():
+        ctx.violation(key, detail + f": printed {r['out'][:70]!r}")
+    elif not refused(r):
+        ctx.violation(key + "/silent-success", detail + ": nothing printed, but the command reports success (return value None / exit status 0)")
 
 
 def fmt_flag(fmt):
